@@ -208,32 +208,40 @@ def inline_new_temps(f, ref_names):
 
 
 def canonicalise(module_name, tree):
-    """rename locals back to the reference names where only names changed; returns list of notes"""
+    """rename locals back to the reference names where only names changed, then substitute back temporaries that the
+    reference tree does not have; returns list of notes"""
     notes = []
     r = ref().get(module_name, {})
     mg = module_globals_of(tree)
     for qual, f in top_functions(tree):
         want = r.get(qual)
-        if want is not None:
-            k = inline_new_temps(f, {nm for nm, _ in want})
-            if k:
-                notes.append('%s.%s: %d new single-use temporar%s inlined' % (module_name, qual, k, 'y' if k == 1 else 'ies'))
-        if not want:
+        if want is None:
             continue
-        cur = binding_sites(f, mg)
-        if cur == want:
-            continue
-        if len(cur) != len(want) or [k for _, k in cur] != [k for _, k in want]:
-            continue
-        mapping = {a: b for (a, _), (b, _) in zip(cur, want) if a != b}
-        if not mapping:
-            continue
-        if len(set(mapping.values())) != len(mapping):
-            continue
-        used = {n.id for n in ast.walk(f) if isinstance(n, ast.Name)} | {a.arg for n in ast.walk(f) if isinstance(n, ast.arguments)
-                                                                           for a in n.posonlyargs + n.args + n.kwonlyargs}
-        if any(b in used and b not in mapping for b in mapping.values()):
-            continue
-        _Ren(mapping).visit(f)
-        notes.append('%s.%s: %d local(s) mapped back to reference names' % (module_name, qual, len(mapping)))
+        renamed = _rename_back(f, want, mg)
+        if renamed:
+            notes.append('%s.%s: %d local(s) mapped back to reference names' % (module_name, qual, renamed))
+        k = inline_new_temps(f, {nm for nm, _ in want})
+        if k:
+            notes.append('%s.%s: %d new single-use temporar%s inlined' % (module_name, qual, k, 'y' if k == 1 else 'ies'))
     return notes
+
+
+def _rename_back(f, want, mg):
+    if not want:
+        return 0
+    cur = binding_sites(f, mg)
+    if cur == want:
+        return 0
+    if len(cur) != len(want) or [k for _, k in cur] != [k for _, k in want]:
+        return 0
+    mapping = {a: b for (a, _), (b, _) in zip(cur, want) if a != b}
+    if not mapping:
+        return 0
+    if len(set(mapping.values())) != len(mapping):
+        return 0
+    used = {n.id for n in ast.walk(f) if isinstance(n, ast.Name)} | {a.arg for n in ast.walk(f) if isinstance(n, ast.arguments)
+                                                                       for a in n.posonlyargs + n.args + n.kwonlyargs}
+    if any(b in used and b not in mapping for b in mapping.values()):
+        return 0
+    _Ren(mapping).visit(f)
+    return len(mapping)
